@@ -911,6 +911,9 @@ class CWorld:
 
     def step(self, i, op):
         env.settle()
+        # the step bound belongs to one data operation: never inherited by the next step
+        _steps["limit"] = 10**9
+        _steps["n"] = 0
         self.steps += 1
         k = op["op"]
         if k not in ("meta_set", "meta_del", "meta_get"):
